@@ -65,6 +65,7 @@ def seq_ops():
         st.tuples(st.just('peekitem'), b),
         st.tuples(st.just('setdefault'), k, v),
         st.tuples(st.just('update_map'), pairs),
+        st.tuples(st.just('bulk'), st.integers(101, 230)),  # more than one 100-row page for iteration/views
         st.tuples(st.just('update_pairs'), pairs),
         st.tuples(st.just('update_kwargs'), st.lists(st.tuples(st.sampled_from(['a', 'b', 'zz']), v), max_size=2)),
         st.tuples(st.just('views')),
@@ -170,6 +171,10 @@ class Sequential(SubCheck):
                     if any(k in od for k in m):
                         reassigned = True
                     cmp(op, outcome(lambda: ix.update(m)), outcome(lambda: od.update(m)))
+                elif name == 'bulk':
+                    m = OrderedDict((('bulk', j) if j % 2 else 'bulk%03d' % j, j) for j in range(op[1]))
+                    cmp(op, outcome(lambda: ix.update(m)), outcome(lambda: od.update(m)))
+                    cmp(op, outcome(lambda: list(reversed(ix))), outcome(lambda: list(reversed(od))))
                 elif name == 'update_pairs':
                     ps = [(k, mkv(v)) for k, v in op[1]]
                     if any(k in od for k, _ in ps):
